@@ -17,6 +17,21 @@ C={
 "C11":("model_checking","exhaustive enumeration of single-byte and partial-overwrite damages of the meta pages of files at rest, opened by the real code, own FNV-1a as oracle","DESIGN.md 4/C11",
   "Every byte position x every other value in either meta, every contiguous partial overlay of a would-be next meta, both metas damaged, every short length, non-databases; page sizes 1024/4096/16384 with the page-size option unset/equal/different, read-write and read-only.",
   "Files at rest after a successful commit; truncation inside the data area is outside the statement."),
+"C09":("model_checking","explicit-state BFS over allocator operation sequences on the real allocator (both backends), map-iteration orders enumerated as choices, specification relation as oracle","DESIGN.md 4/C09",
+  "Every sequence of up to 8 (quick) / 10 (thorough) allocator operations as the database can issue them over a universe of 12 page ids, <= 2 readers, both backends, every hash-map iteration order inside Allocate; plus the directed 0xFFFF-count enumeration; judged by the specification relation, not by a policy.",
+  "Caller contract as alphabet guard; the 'randomly beyond the bound' half of the quantifier is not addressed."),
+"C13":("model_checking","exhaustive enumeration of option assignments per open for a fixed history with two reopen points, executed on the real code, reference-model + decoder oracle","DESIGN.md 4/C13",
+  "Every assignment of 8 options at the first reopen x the listed assignments at creation and second reopen, with read-only opens (preload on/off) in between: all API results and dumps equal the model, the loaded free list equals the decoder's unreachable set after every open, accounting exact.",
+  "One fixed history (the option space is what is enumerated); Mlock only if the sandbox permits it (recorded)."),
+"C14":("model_checking","stateless DFS over schedules of WriteTo against a committing writer (real code, controlled scheduler) + explicit-state BFS over backup/commit event orders","DESIGN.md 4/C14",
+  "Every schedule (bounded preemptions) of a chunked WriteTo racing two page-recycling commits, and every order of reader/writer/backup events within the bound: bytes = n = Size(), copy equals the reader's version, both metas valid with meta 0 winning, accounting/Tx.Check clean, copy opens and accepts a commit.",
+  "The writer given to WriteTo yields at every Write call."),
+"C17":("model_checking","exhaustive enumeration of open/close event sequences (in-process and across helper processes) against a lock table; of read-only API programs and CLI commands; of stores into all handed-out slices under the real PROT_READ mapping","DESIGN.md 4/C17",
+  "Lock table over all event sequences up to the bound with 3 handles (one process / three processes) plus blocking opens under the controlled scheduler; every read-only program of the bound and every CLI inspection command leaves length and SHA-256 unchanged and issues no write; every store into handed-out memory faults or hits a private copy.",
+  "flock/mmap semantics are the kernel's."),
+"C18":("model_checking","exhaustive enumeration of MaxSize x AllocSize x InitialMmapSize x page size x workload configurations on the real code, file length checked after every operation","DESIGN.md 4/C18",
+  "Every limit on a 2048- (quick) / 512-byte (thorough) grid from 4 pages to 96 KiB plus MiB-scale points, 3 alloc sizes, 4 initial map sizes, 2 page sizes, 3 workloads, limit from the start or imposed later: length never exceeds max(limit, length at open); refused transactions leave content, accounting and length unchanged; reopen and a small transaction work.",
+  "Compared op by op with the reference model."),
 "C15":("model_checking","explicit-state BFS over source states x exhaustive enumeration of transaction-size limits, real Compact and CLI, reference-model oracle","DESIGN.md 4/C15",
   "Every source state of the exploration and every seed, compacted for every limit (exhaustive when small, else every limit that changes the split pattern) through the library and the CLI: destination equals the model incl. sequences, passes Tx.Check/accounting, source unchanged.",
   "CLI run in-process via command.NewRootCommand()."),
